@@ -7,6 +7,7 @@ import os
 from collections import defaultdict
 from typing import Any, Dict, Generator, List, Optional, Set, Tuple, Union
 
+import automata.base.exceptions as exceptions
 from automata.base.automaton import Automaton, AutomatonStateT
 from automata.base.utils import (
     LayoutMethod,
